@@ -5,9 +5,9 @@
    exchange and rebuild, for ANY sequence of codes (lh1_refines_lzhuf); the fixed
    position code inverts the decoder's offset table; and the round trip
    decode (LZHUF-encode cmds) = LZ77-expand cmds for command lists of any length
-   (lh1_roundtrip, one lh1_read per command; the API-level form for arbitrary read
-   schedules is being added). *)
-From Lhasa Require Import Base DecBase Generated Lh1 Lzhuf P_Lh1.
+   (lh1_roundtrip: one lh1_read per command; lh1_roundtrip_api: through
+   lha_decoder_read with ANY read schedule). *)
+From Lhasa Require Import Base ListN DecBase Generated Decoder Lh1 Lzhuf P_Decoder P_Lh1 P_Lh1Api.
 Local Open Scope N_scope.
 
 Example lzhuf_expand_example :
@@ -32,6 +32,16 @@ Theorem lh1_roundtrip : forall cmds more, Forall cmd_valid cmds -> Forall (fun x
       Ok (lz77_expand_4k cmds, s', c') /\ lh1_inv s'.
 Proof. exact P_Lh1.lh1_roundtrip. Qed.
 
+(* ... and through the decoder API, for any read schedule covering the output *)
+Theorem lh1_roundtrip_api : forall cmds more s0 ks, Forall cmd_valid cmds -> Forall (fun x => x < 256) more ->
+  lh1_init = Ok s0 ->
+  let out := lz77_expand_4k cmds in nlen out <= sum_N ks -> sum_N ks < 2 ^ 62 ->
+  exists os d', run_reads (lh1_read src_cb) lh1_max_read lh1_block_size
+      (lha_decoder_new s0 {| src_data := bits_to_bytes (lzhuf_encode cmds) ++ more; src_chunks := [] |} (nlen out)) ks
+      = Ok (os, d') /\ concat os = out.
+Proof. exact P_Lh1Api.lh1_roundtrip_api. Qed.
+
 Print Assumptions lh1_refines_lzhuf.
 Print Assumptions lh1_initial_state.
 Print Assumptions lh1_roundtrip.
+Print Assumptions lh1_roundtrip_api.
